@@ -81,6 +81,8 @@ def main():
         "engines": [
             {"name": "heap", "path": "/verif/spec/Heap.tla", "serves_properties": ["C10", "C02", "C16"],
              "kind_free_text": "TLA+ spec of allocator/collector; TLC model checking, behaviour generation (-simulate), trace validation of the real gc.c"},
+            {"name": "sched", "path": "/verif/spec/Sched.tla", "serves_properties": ["C11"],
+             "kind_free_text": "TLA+ transcription of the green-thread scheduler and SRFI 18 primitives; MC with liveness; trace validation under forced time slices"},
         ],
         "checks": checks,
         "not_applicable": [{"property_id": p, "reason": NA.get(p, PENDING_REASON)} for p in ALL if p not in CLAIMED],
@@ -98,7 +100,7 @@ def main():
 
 
 NA = {}
-APPROVED = []
+APPROVED = ["C11"]
 
 if __name__ == "__main__":
     main()
